@@ -13,6 +13,7 @@ type cell struct {
 	ptypes []T
 	ret    T
 	expr   string // DDP expression over the parameters a, b, c
+	pre    string // statements in front of the returning statement (may be empty)
 	ref    refFn
 	group  string
 }
@@ -276,6 +277,36 @@ func scalarCells() []cell {
 	for _, from := range []T{Z, K, B, W, C} {
 		for _, to := range []T{Z, K, B, W, C} {
 			add("cast", fmt.Sprintf("als_%s_%s", tKey[from], tKey[to]), []T{from}, to, "a als "+tName[to], castRef(from, to))
+		}
+	}
+	// --- Variable contents: two Variablen are equal exactly when they hold values of the same
+	// type that are equal. Kommazahl contents are compared bitwise by the runtime; NaN and
+	// signed zeros make the Kommazahl/Kommazahl cell a matter of convention: it is left out.
+	for _, t1 := range []T{Z, K, B, W, C} {
+		for _, t2 := range []T{Z, K, B, W, C} {
+			t1, t2 := t1, t2
+			if t1 == K && t2 == K {
+				continue
+			}
+			for _, neg := range []bool{false, true} {
+				neg := neg
+				key, op := "anyeq", "gleich"
+				if neg {
+					key, op = "anyne", "ungleich"
+				}
+				cells = append(cells, cell{name: fmt.Sprintf("%s_%s%s", key, tKey[t1], tKey[t2]), ptypes: []T{t1, t2}, ret: W, group: "variable",
+					pre: "Die Variable u ist a.\n\tDie Variable v ist b.\n\t", expr: "u " + op + " v ist",
+					ref: func(c *smt.Ctx, a []*smt.Expr) *smt.Expr {
+						eq := c.BoolC(false)
+						if t1 == t2 {
+							eq = c.Eq(a[0], a[1])
+						}
+						if neg {
+							eq = c.Not(eq)
+						}
+						return c.BoolToBV(eq, 1)
+					}})
+			}
 		}
 	}
 	return cells
